@@ -203,6 +203,7 @@ def run(ctx, model_ok):
     two_rule_effects(ctx)
     multi_pattern_effects(ctx)
     language_pattern_effects(ctx)
+    many_matches_effects(ctx)
     hist = curated_histories(rng) + language_histories() + [gen_history(rng, rng.randint(5, 60)) for _ in range(ctx.n(120, 2500))]
     now = C.run_impl([{"op": "now"}])[0]
     for hi, H in enumerate(hist):
@@ -339,6 +340,28 @@ def multi_pattern_effects(ctx):
                 if got != want:
                     ctx.oracle_fail({"class": "effect:multi-pattern", "what": f"rule with patterns {pats} accepting only '{word}': '{text}' evaluates to {got if val is None or got is not None else val}, expected {want}",
                                      "ops": ops + [{"op": "reset"}]})
+
+
+def many_matches_effects(ctx):
+    """EVERY line matching: a long line with many matches of one rule (each pass of the rewrite loop applies a rule once) and of two
+    rules; every one of them is rewritten, however many there are"""
+    coin = {"op": "rule_add", "lang": "en", "name": "r1", "kind": "when", "patterns": ["{NUMBER:n} {TEXT:w}"], "field": "w", "word": "btc", "v": 1000}
+    vou = {"op": "rule_add", "lang": "en", "name": "r2", "kind": "const", "patterns": ["{NUMBER:n} voucher"], "v": 7}
+    for n in (2, 15, 16, 17, 18, 31, 32, 33, 40, 64, 65, 100):
+        for pre, term, each in (([coin], ["1 btc"], [1000]), ([coin, vou], ["1 btc", "3 voucher"], [1000, 7]), ([vou, coin], ["2 voucher", "5 btc"], [7, 1000])):
+            terms = [term[i % len(term)] for i in range(n)]
+            want = float(sum(each[i % len(each)] for i in range(n)))
+            text = " + ".join(terms)
+            ops = [{"op": "reset"}] + pre + [{"op": "exec", "lang": "en", "text": text}]
+            r = C.run_impl(ops + [{"op": "reset"}])[len(ops) - 1]
+            l = r["lines"][0] if "lines" in r and r["lines"] else None
+            val = l.get("ok") if l and "ok" in l else None
+            got = O.f64(val["v"]) if val is not None and val.get("t") == "N" else None
+            ctx.count("many-matches-effects")
+            ctx.seen(("many-matches", n, C.json.dumps(pre)), True)
+            if got != want:
+                ctx.oracle_fail({"class": "effect:many-matches", "what": f"a line with {n} matches ('{text[:60]}...') evaluates to {got if got is not None else val}, every match rewritten gives {want}",
+                                 "ops": ops + [{"op": "reset"}]})
 
 
 # patterns with a language-dependent element (a word group, an operator word of one language) and a line spelled like the pattern
